@@ -733,7 +733,7 @@ func (n *ExtendsNode) Render(w io.Writer, ctx *RenderContext) error {
 
 	// Create a new context for the parent template, but with our child blocks
 	// This ensures the parent template knows it's being extended and preserves our blocks
-	parentCtx := NewRenderContext(ctx.env, ctx.context, ctx.engine)
+	parentCtx := NewRenderContext(ctx.env, ctx.visibleVariables(), ctx.engine)
 	// A sandbox extends to the parent template
 	parentCtx.sandboxed = ctx.sandboxed
 	parentCtx.extending = true // Flag that the parent is being extended
@@ -880,8 +880,9 @@ func (n *IncludeNode) Render(w io.Writer, ctx *RenderContext) error {
 			contextVars = make(map[string]interface{}, len(n.variables))
 		} else {
 			// For sandboxed mode but not 'only' mode, copy the parent context
-			contextVars = make(map[string]interface{}, len(ctx.context)+len(n.variables))
-			for k, v := range ctx.context {
+			visible := ctx.visibleVariables()
+			contextVars = make(map[string]interface{}, len(visible)+len(n.variables))
+			for k, v := range visible {
 				contextVars[k] = v
 			}
 		}
